@@ -13,23 +13,37 @@
 (* PINGREQ if due, write + flush it (complete_flush arms the 5 s round-trip     *)
 (* timer and re-arms the send deadline).                                      *)
 (*                                                                          *)
-(* K is the effective keep-alive (ms).  LEAD = min(5000, K/2);                 *)
-(* SendInterval = K - LEAD.  K = 0 disables everything.                       *)
+(* k is the effective keep-alive of the current connection (ms).             *)
+(* LEAD = min(5000, k/2); SendInterval = k - LEAD.  k = 0 disables everything. *)
+(*                                                                          *)
+(* Connections: the first one has keep-alive K; Drop ends a connection        *)
+(* (handle_disconnect: reset_transport + arm_replay), Connect(k2) starts the   *)
+(* next with the effective keep-alive the new CONNACK yields (Server Keep      *)
+(* Alive), up to MaxConn connections.  Stall is a poll whose PINGREQ is due    *)
+(* while the transport does not take it: the PINGREQ stays queued in the       *)
+(* control queue and the poll is dropped.  A queued PINGREQ is transport       *)
+(* state: arm_replay discards it (deviation "replay_queued_ping": it is kept    *)
+(* and sent on the next connection -- defect D16, repaired).                   *)
 (***************************************************************************)
 EXTENDS Naturals, Sequences, TLC
 
-CONSTANTS K,        \* effective keep-alive in ms (0 = disabled)
+CONSTANTS K,        \* effective keep-alive of the first connection in ms (0 = disabled)
+          Ks,       \* effective keep-alives a later connection may get
+          MaxConn,  \* number of connections explored (1: no reconnect)
           UNIT,     \* ms per time step
           MaxT,     \* explore until this time (ms)
-          Dev,      \* deviations: "ping_rearm_on_pingresp", "timeout_at_queue_time", "lead_quarter"
+          Dev,      \* deviations: "ping_rearm_on_pingresp", "timeout_at_queue_time", "lead_quarter", "replay_queued_ping"
           Record
 
 RTT == 5000
 Min(a, b) == IF a < b THEN a ELSE b
-Lead == IF "lead_quarter" \in Dev THEN Min(RTT, K \div 4) ELSE Min(RTT, K \div 2)
-SendInterval == K - Lead
+Lead(kk) == IF "lead_quarter" \in Dev THEN Min(RTT, kk \div 4) ELSE Min(RTT, kk \div 2)
+SendIntervalOf(kk) == kk - Lead(kk)
 
 VARIABLES now,        \* ms
+          k,          \* effective keep-alive of the current connection
+          conn,       \* connections so far
+          queued,     \* a PINGREQ sits unsent in the control queue
           live,
           nextPing,   \* deadline or -1 (None)
           pingTimeout,\* deadline or -1
@@ -43,7 +57,9 @@ VARIABLES now,        \* ms
           susp,       \* a poll() is suspended in with_deadline(read)
           hist
 
-vars == << now, live, nextPing, pingTimeout, waiting, wake, inbox, lastDone, pingAt, pingDone, viol, susp, hist >>
+SendInterval == SendIntervalOf(k)
+
+vars == << now, k, conn, queued, live, nextPing, pingTimeout, waiting, wake, inbox, lastDone, pingAt, pingDone, viol, susp, hist >>
 
 None == 0 - 1
 Deadline == IF nextPing # None /\ pingTimeout # None THEN Min(nextPing, pingTimeout)
@@ -53,8 +69,8 @@ Log(a, p) == IF Record THEN Append(hist, [a |-> a, p |-> p, now |-> now', np |->
              ELSE hist
 
 Init ==
-  /\ now = 0 /\ live = TRUE
-  /\ nextPing = IF K = 0 THEN None ELSE SendInterval      \* note_outbound_activity at CONNACK
+  /\ now = 0 /\ live = TRUE /\ k = K /\ conn = 1 /\ queued = FALSE
+  /\ nextPing = IF K = 0 THEN None ELSE SendIntervalOf(K)      \* note_outbound_activity at CONNACK
   /\ pingTimeout = None
   /\ waiting = FALSE /\ wake = None /\ inbox = << >>
   /\ lastDone = 0 /\ pingAt = None /\ pingDone = None
@@ -62,48 +78,50 @@ Init ==
 
 \* ---- monitors (C10) --------------------------------------------------------------------------
 \* D10 (open): with K < 5000 the client is silent until the PINGRESP arrives or RTT expires
-D10Excuse(gap) == K < 5000 /\ (pingAt # None \/ pingDone = now) /\ gap <= RTT
+D10Excuse(gap) == k < 5000 /\ (pingAt # None \/ pingDone = now) /\ gap <= RTT
 
 SentAt(t, v) ==
   \* a client packet completes at time t
-  IF K > 0 /\ t - lastDone > K /\ ~D10Excuse(t - lastDone) THEN v \cup {"gap"} ELSE v
+  IF k > 0 /\ t - lastDone > k /\ ~D10Excuse(t - lastDone) THEN v \cup {"gap"} ELSE v
 
 \* ---- the client is polled (drive_packet / wait_for_progress up to the next await or return) ----------
 \* A poll() that was suspended in with_deadline(read) (susp) looks at the transport first; a fresh
 \* poll() runs service() first.  After a packet has been handled the same call goes round its loop
 \* once more: service() again (timeout check, PINGREQ if due), then it returns.
 \* The client-side state is handled as a record so that the steps compose.
-Cl == [live |-> live, np |-> nextPing, pt |-> pingTimeout, ld |-> lastDone, pa |-> pingAt, pd |-> pingDone,
+Cl == [q |-> queued, live |-> live, np |-> nextPing, pt |-> pingTimeout, ld |-> lastDone, pa |-> pingAt, pd |-> pingDone,
        v |-> viol, did |-> "none"]
 
-\* service(): keep-alive timeout, else PINGREQ if due (write + flush + complete_flush)
+\* service(): keep-alive timeout, else PINGREQ if due or already queued (write + flush + complete_flush)
 Service(x) ==
   IF x.pt # None /\ now >= x.pt THEN
      [x EXCEPT !.live = FALSE, !.np = None, !.pt = None, !.did = "timeout",
+               !.q = IF "replay_queued_ping" \in Dev THEN @ ELSE FALSE,
                !.v = IF x.pa = None \/ now < x.pa + RTT THEN @ \cup {"early_timeout"} ELSE @]
-  ELSE IF x.pt = None /\ x.np # None /\ now >= x.np THEN
-     [x EXCEPT !.pt = (IF "timeout_at_queue_time" \in Dev THEN x.np ELSE now) + RTT, !.np = now + SendInterval,
-               !.pa = now, !.ld = now, !.did = "ping",
-               !.v = (IF K > 0 /\ now - x.ld > K /\ ~(K < 5000 /\ (x.pa # None \/ x.pd = now) /\ now - x.ld <= RTT)
-                      THEN @ \cup {"gap"} ELSE @) \cup (IF K = 0 THEN {"ping_with_zero"} ELSE {})]
+  ELSE IF x.q \/ (x.pt = None /\ x.np # None /\ now >= x.np) THEN
+     [x EXCEPT !.pt = (IF "timeout_at_queue_time" \in Dev /\ x.np # None THEN x.np ELSE now) + RTT,
+               !.np = IF k = 0 THEN None ELSE now + SendInterval,
+               !.pa = now, !.ld = now, !.did = "ping", !.q = FALSE,
+               !.v = (IF k > 0 /\ now - x.ld > k /\ ~(k < 5000 /\ (x.pa # None \/ x.pd = now) /\ now - x.ld <= RTT)
+                      THEN @ \cup {"gap"} ELSE @) \cup (IF k = 0 THEN {"ping_with_zero"} ELSE {})]
   ELSE x
 
 \* one inbound packet is read and handled
 Read(x, p) ==
   IF p = "PINGRESP"
   THEN [x EXCEPT !.pt = None, !.pa = None, !.pd = now,
-                 !.np = IF "ping_rearm_on_pingresp" \in Dev /\ K > 0 THEN now + SendInterval ELSE @]
+                 !.np = IF "ping_rearm_on_pingresp" \in Dev /\ k > 0 THEN now + SendInterval ELSE @]
   ELSE x
 
 Commit(x, what, p) ==
   /\ live' = x.live /\ nextPing' = x.np /\ pingTimeout' = x.pt /\ lastDone' = x.ld /\ pingAt' = x.pa
-  /\ pingDone' = x.pd /\ viol' = x.v
+  /\ pingDone' = x.pd /\ viol' = x.v /\ queued' = x.q
   /\ waiting' = FALSE /\ wake' = None /\ susp' = FALSE
   /\ hist' = Log(what, p)
 
 Poll ==
   /\ live
-  /\ UNCHANGED now
+  /\ UNCHANGED << now, k, conn >>
   /\ IF susp /\ inbox # << >> THEN
        \* the suspended read completes; then once more round the loop
        LET y == Service(Read(Cl, Head(inbox))) IN
@@ -120,11 +138,11 @@ Poll ==
          \* nothing to do: suspend in with_deadline(next_deadline, read)
          /\ waiting' = TRUE /\ wake' = Deadline /\ susp' = TRUE
          \* the client must not sleep past the keep-alive, nor past the round-trip bound
-         /\ viol' = (IF K > 0 /\ (Deadline = None \/ Deadline > lastDone + K)
-                        /\ ~(K < 5000 /\ pingAt # None /\ Deadline # None /\ Deadline <= pingAt + RTT)
+         /\ viol' = (IF k > 0 /\ (Deadline = None \/ Deadline > lastDone + k)
+                        /\ ~(k < 5000 /\ pingAt # None /\ Deadline # None /\ Deadline <= pingAt + RTT)
                      THEN viol \cup {"sleeps_past_keepalive"} ELSE viol)
                     \cup (IF pingAt # None /\ (Deadline = None \/ Deadline > pingAt + RTT) THEN {"sleeps_past_rtt"} ELSE {})
-         /\ UNCHANGED << live, nextPing, pingTimeout, inbox, lastDone, pingAt, pingDone >>
+         /\ UNCHANGED << live, nextPing, pingTimeout, inbox, lastDone, pingAt, pingDone, queued >>
          /\ hist' = Log("yield", Deadline)
 
 \* ---- environment ----------------------------------------------------------------------------------
@@ -136,7 +154,7 @@ Tick ==
   /\ wake = None \/ wake <= now \/ now + UNIT <= wake
   /\ now' = now + UNIT
   /\ waiting' = IF wake # None /\ (wake <= now \/ now + UNIT >= wake) THEN FALSE ELSE waiting
-  /\ UNCHANGED << live, nextPing, pingTimeout, wake, inbox, lastDone, pingAt, pingDone, viol, susp >>
+  /\ UNCHANGED << k, conn, queued, live, nextPing, pingTimeout, wake, inbox, lastDone, pingAt, pingDone, viol, susp >>
   /\ hist' = Log("adv", now + UNIT)
 
 \* the broker answers an outstanding PINGREQ (any time), or sends something else
@@ -145,29 +163,66 @@ Arrive(p) ==
   /\ p = "PINGRESP" => pingAt # None
   /\ inbox' = Append(inbox, p)
   /\ waiting' = FALSE
-  /\ UNCHANGED << now, live, nextPing, pingTimeout, wake, lastDone, pingAt, pingDone, viol, susp >>
+  /\ UNCHANGED << now, k, conn, queued, live, nextPing, pingTimeout, wake, lastDone, pingAt, pingDone, viol, susp >>
   /\ hist' = Log("b", p)
 
 \* the application publishes at QoS 0 between polls (note_outbound_activity)
 Publish0 ==
   /\ live /\ waiting
-  /\ nextPing' = IF K = 0 THEN None ELSE now + SendInterval
+  /\ ~queued                \* (a queued PINGREQ would be flushed by the publish first: not modelled)
+  /\ nextPing' = IF k = 0 THEN None ELSE now + SendInterval
   /\ lastDone' = now
   /\ viol' = SentAt(now, viol)
   /\ waiting' = FALSE /\ wake' = None /\ susp' = FALSE      \* the pending poll() is dropped first
-  /\ UNCHANGED << now, live, pingTimeout, inbox, pingAt, pingDone >>
+  /\ UNCHANGED << now, k, conn, queued, live, pingTimeout, inbox, pingAt, pingDone >>
   /\ hist' = Log("q0", << >>)
 
+\* ---- connections -----------------------------------------------------------------------------------
+\* a poll finds the PINGREQ due, queues it, the transport does not take it, the application drops the poll
+Stall ==
+  /\ live /\ ~waiting /\ ~queued /\ conn < MaxConn
+  /\ ~(pingTimeout # None /\ now >= pingTimeout)
+  /\ pingTimeout = None /\ nextPing # None /\ now >= nextPing
+  /\ (susp => inbox = << >>)
+  /\ queued' = TRUE
+  /\ susp' = FALSE /\ wake' = None
+  /\ UNCHANGED << now, k, conn, live, nextPing, pingTimeout, waiting, inbox, lastDone, pingAt, pingDone, viol >>
+  /\ hist' = Log("stall", << >>)
+
+\* the connection ends (transport lost or handle dropped): handle_disconnect / the next connect()
+Drop ==
+  /\ live /\ conn < MaxConn
+  /\ live' = FALSE /\ nextPing' = None /\ pingTimeout' = None /\ pingAt' = None
+  /\ queued' = IF "replay_queued_ping" \in Dev THEN queued ELSE FALSE
+  /\ inbox' = << >> /\ susp' = FALSE /\ wake' = None
+  /\ waiting' = TRUE          \* time may pass while disconnected
+  /\ UNCHANGED << now, k, conn, lastDone, pingDone, viol >>
+  /\ hist' = Log("drop", << >>)
+
+\* connect() succeeds: the CONNACK's Server Keep Alive gives the effective keep-alive k2
+Connect(k2) ==
+  /\ ~live /\ conn < MaxConn
+  /\ live' = TRUE /\ k' = k2 /\ conn' = conn + 1
+  /\ nextPing' = IF k2 = 0 THEN None ELSE now + SendIntervalOf(k2)
+  /\ pingTimeout' = None /\ pingAt' = None /\ pingDone' = None
+  /\ lastDone' = now
+  /\ waiting' = FALSE /\ wake' = None /\ susp' = FALSE /\ inbox' = << >>
+  /\ UNCHANGED << now, queued, viol >>
+  /\ hist' = Log("conn", k2)
+
 Next == (~waiting /\ Poll) \/ Tick \/ Arrive("PINGRESP") \/ Arrive("OTHER") \/ Publish0
+        \/ Stall \/ Drop \/ (\E k2 \in Ks : Connect(k2))
 
 Spec == Init /\ [][Next]_vars
 
 \* ---- properties ------------------------------------------------------------------------------------
 Inv_C10 == viol = {}
 \* the client is never suspended without a timer while the keep-alive is on
-Inv_C10_timer == (live /\ waiting /\ K > 0) => wake # None
+Inv_C10_timer == (live /\ waiting /\ k > 0) => wake # None
 \* an unanswered PINGREQ ends the wait at the round-trip bound: the client cannot be past it and asleep
 Inv_C10_detect == (live /\ pingAt # None /\ waiting) => now < pingAt + RTT + UNIT
 \* keep-alive zero sends no pings
-Inv_C10_zero == K = 0 => pingAt = None
+Inv_C10_zero == (live /\ k = 0) => (pingAt = None /\ pingTimeout = None)
+\* a PINGREQ never waits in the queue of a connection other than the one it was queued for
+Inv_C10_queue == queued => live
 =============================================================================
